@@ -132,6 +132,13 @@ func buildSource(t *testing.T, idx, blocks, interval, mtb int) *srcChain {
 		}
 		p.AddBlock(txs...)
 	}
+	// A registered candidate blocked by Policy: the committee of the next epoch
+	// then depends on Policy's list of blocked accounts.
+	if p.Rejected == nil {
+		if tx := p.BlockCandidate(); tx != nil {
+			p.AddBlock(tx)
+		}
+	}
 	for len(p.Raw) < blocks && p.Rejected == nil {
 		p.Step()
 	}
